@@ -60,8 +60,8 @@ func c10Layer(local, referenced any) (any, error) {
 
 type c10Host struct {
 	form   string
-	value  any                                  // what is written at the host position
-	inline func(tval any) (any, error)          // what the host must evaluate to
+	value  any                         // what is written at the host position
+	inline func(tval any) (any, error) // what the host must evaluate to
 }
 
 // c10HostForms: every way to write a reference to path (spelled sp) at a fresh position.
@@ -453,7 +453,9 @@ func buildC10(tier string) *core.Plan {
 		{"a": map[string]any{"tmpl": map[string]any{"$output": false, "x": "v"}}},
 	}
 	single := core.Space{Name: "same-document", N: int64(len(bases)), Chunk: 2,
-		Desc: func(i int64) any { return map[string]any{"base": bases[i], "cases": "every target x every host position x every reference form; chains; dangling"} },
+		Desc: func(i int64) any {
+			return map[string]any{"base": bases[i], "cases": "every target x every host position x every reference form; chains; dangling"}
+		},
 		Run: func(c *core.Ctx, i int64) {
 			for _, cs := range c10Cases(bases[i], true) {
 				c10Run(c, cs)
@@ -475,7 +477,9 @@ func buildC10(tier string) *core.Plan {
 		}
 	}
 	cross := core.Space{Name: "cross-document", N: int64(len(crossBases)), Chunk: 4,
-		Desc: func(i int64) any { return map[string]any{"base": crossBases[i], "cases": "{$match,$path} and [pattern, path...] forms; one, zero and two matching documents"} },
+		Desc: func(i int64) any {
+			return map[string]any{"base": crossBases[i], "cases": "{$match,$path} and [pattern, path...] forms; one, zero and two matching documents"}
+		},
 		Run: func(c *core.Ctx, i int64) {
 			for _, cs := range c10Cross(crossBases[i]) {
 				c10Run(c, cs)
